@@ -112,7 +112,8 @@ class DashTiming:
                 day=1, hour=0, minute=0, second=0, microsecond=0)
             if (self.publishTime - self.availabilityStartTime) < one_day:
                 self.availabilityStartTime -= one_day
-        elif options.availabilityStartTime == 'year':
+        elif options.availabilityStartTime in {'year', None}:
+            # ('year' is the default; an empty start option parses to None)
             self.availabilityStartTime = now.replace(
                 month=1, day=1, hour=0, minute=0, second=0, microsecond=0)
             if (self.publishTime - self.availabilityStartTime) < one_day:
